@@ -257,6 +257,15 @@ def run(P, tier="quick"):
                     problems.append("compares the %s end of one range with a bound derived from the %s end of the other" %
                                     (oclass, bclass))
                 per_func.setdefault(("ends", f.key()), set()).add(bclass)
+                # the checked quantity must be the caller's argument: a parameter whose elements are range-checked
+                # may not be reassigned (e.g. set to NULL to take a short cut) anywhere in the function
+                from ..util import base_var
+                bv = base_var(other)
+                if bv is not None and bv.refkind == "param":
+                    defs = EC.canon(f).defs.get(bv.refdecl, [])
+                    if defs:
+                        problems.append("parameter '%s' that is range-checked here is reassigned at line %d: the check can be "
+                                        "bypassed for the caller's vector" % (bv.refname, defs[0][1].line if defs[0][1] is not None else 0))
                 if problems:
                     R.violated(Finding("R33", PROPS, f.file, f.name, anchor, "%s: %s" % (n.text(), "; ".join(problems)), n.line))
                 else:
